@@ -141,6 +141,7 @@ class Ctx(object):
             return
         if ratio != ratio:
             return
+        ratio = min(ratio, 1e300)
         if name not in self.worst or ratio > self.worst[name]:
             self.worst[name] = ratio
 
